@@ -227,16 +227,42 @@ pub fn ref_kind(frame: &[u8], kind: usize) -> Res {
     }
 }
 
+/// Characters whose UTF-8 encodings cover the corner bytes: every lead-byte class, continuation
+/// bytes 0x80 and 0xBF, the first and last scalar of each encoded length.
+const MULTIBYTE: [char; 14] = ['\u{80}', '\u{c0}', '\u{ff}', '\u{7ff}', '\u{800}', '\u{2013}', '\u{201c}', '\u{20ac}', '\u{ffff}', '\u{10000}', '\u{1f600}', '\u{10ffff}', '\u{440}', '\u{65e5}'];
+
+/// JSON escape sequences as they appear on the wire (a peer may escape anything).
+const ESCAPES: [&str; 10] = ["\\n", "\\\"", "\\\\", "\\/", "\\u00e9", "\\u0000", "\\ud83d\\ude00", "\\t", "\\u2013", "\\b"];
+
 fn pad(n: usize, salt: usize) -> String {
-    // Printable, no escapes needed, varies with salt; occasionally multi-byte UTF-8.
+    // Wire text of a string's content, exactly `n` bytes long. Four styles by salt: printable
+    // ASCII; ASCII with a three-byte character now and then; dense multi-byte characters; JSON
+    // escape sequences (which a zero-copy `&str` target cannot take — the reference decode says so
+    // too — and an owned `String` target can).
     let mut s = String::with_capacity(n + 4);
     let alphabet = b"abcdefghijklmnopqrstuvwxyz0123456789-_ ";
     let mut i = 0;
     while s.len() < n {
-        if salt % 5 == 4 && i % 7 == 3 && s.len() + 3 <= n {
-            s.push('\u{20ac}'); // 3 bytes
-        } else {
-            s.push(alphabet[(i * 7 + salt) % alphabet.len()] as char);
+        let left = n - s.len();
+        match salt % 7 {
+            4 if i % 7 == 3 && left >= 3 => s.push('\u{20ac}'), // 3 bytes
+            5 if i % 2 == 1 => {
+                let c = MULTIBYTE[(i / 2 + salt) % MULTIBYTE.len()];
+                if c.len_utf8() <= left {
+                    s.push(c);
+                } else {
+                    s.push('x');
+                }
+            }
+            6 if i % 3 == 2 => {
+                let e = ESCAPES[(i / 3 + salt) % ESCAPES.len()];
+                if e.len() <= left {
+                    s.push_str(e);
+                } else {
+                    s.push('y');
+                }
+            }
+            _ => s.push(alphabet[(i * 7 + salt) % alphabet.len()] as char),
         }
         i += 1;
     }
